@@ -7,7 +7,7 @@ import numpy as np
 import shapely
 from shapely.geometry import LineString, Point
 
-from .. import builders, ref
+from .. import builders, ref, sequences
 from ..runner import LibraryRaised, Recorder, lib
 
 PROPERTY = 'C18'
@@ -26,6 +26,7 @@ RULE = (
     "prepared data holds each segment's cell labels at every depth.  Non-trivial: paths with >= 2 inside "
     "intervals, touching a hole, or with 3 waypoints."
     ' Also: datasets at 60N and 72S, every 3-waypoint path again with a third ordinate, lazily loaded (dask) variables, column-major variables and variables with their dimensions stored in reverse.'
+    " Also (operation sequences, mc/sequences.py): for 8 base datasets and every sequence `first [middle] query` over 36 operations (queries, in-place edits a user makes, transforms whose result is used next; quick length 2, thorough length 3) ending in one of this property's own queries, the answer on the one used object equals the answer on a never-used rebuild. Second phase: the first case of every distinct outcome and kind (thorough: every case, for expensive checks every kind) again with debug logging enabled, under numpy.errstate(all='ignore'), and in python -O child interpreters."
 )
 LEVEL_TEXT = ("all 2- and 3-waypoint simple polylines over 8 dataset-derived waypoints on 6 datasets: segment/cell identity, "
               "order, exact coverage of path ∩ cells, additive lengths, per-depth values")
@@ -45,6 +46,10 @@ DATASETS = [
     {'family': 'ugrid', 'mesh': 'M8'},
     {'family': 'cf1d', 'ny': 4, 'nx': 4, 'bounds': 'var', 'lon0': 0.0, 'lat0': 60.0},
     {'family': 'shoc_standard', 'nj': 3, 'ni': 3, 'geometry': 'skew', 'lon0': 170.0, 'lat0': -72.0},
+    # a 0..360 style grid reaching past 180E whose first cell lies across Greenwich (paths with negative longitudes)
+    # (cell edges at -7.5, 17.5, 42.5 ... 192.5 and -10, 0, 10; the paths stay within a few cells of Greenwich)
+    {'family': 'cf1d', 'ny': 2, 'nx': 8, 'lon0': 5.0, 'dx': 25.0, 'lat0': -5.0, 'dy': 10.0,
+     'waypoints': [[5.0, -5.0], [30.0, 5.0], [-5.0, -2.0], [17.5, 4.0], [17.5, 0.0], [-8.25, 0.03125], [20.0, 10.5], [42.5, -10.375]]},
 ]
 TOL = 1e-9
 
@@ -53,7 +58,7 @@ def bounds(tier):
     return {'datasets': len(DATASETS), 'waypoints': 8, 'polyline_lengths': [2, 3] if tier == 'thorough' else [2, '3 (from 5 of the 8 waypoints)']}
 
 
-def cases(tier):
+def _cases_first_call(tier):
     out = []
     for spec in DATASETS:
         for first in range(8):
@@ -61,7 +66,9 @@ def cases(tier):
     return out
 
 
-def waypoints(truth, polys):
+def waypoints(truth, polys, spec=None):
+    if spec and spec.get('waypoints'):
+        return [Point(x, y) for x, y in spec['waypoints']]
     valid = [(n, p) for n, p in enumerate(polys) if p is not None]
     first, last = valid[0][1], valid[-1][1]
     union = shapely.unary_union([p for _, p in valid])
@@ -135,7 +142,7 @@ def reference_intervals(line, polys):
     return merge(intervals)
 
 
-def run_case(case):
+def _run_case_first_call(case):
     rec = Recorder()
     from emsarray.transect import Transect
     import pyproj
@@ -145,7 +152,7 @@ def run_case(case):
     fp = f"C18/{truth.family}"
     polys = ref.ref_polygons(truth)
     own = list(convention.polygons)
-    pts = waypoints(truth, polys)
+    pts = waypoints(truth, polys, case['spec'])
     if case['first'] >= len(pts):
         rec.nontrivial('none')
         rec.nontrivial('none2')
@@ -288,3 +295,16 @@ def run_case(case):
             rec.check(False, f"{fp}/dataset-raised", f"{label}: transect_dataset / prepare raised", 'dataset', str(err))
     rec.outcome([truth.family, case['first'], outcomes])
     return rec.result()
+
+
+def cases(tier):
+    # first calls on freshly built datasets, then operation sequences on one object (mc/sequences.py)
+    return _cases_first_call(tier) + sequences.cases_for(PROPERTY, tier)
+
+
+def run_case(case):
+    if case.get('part') == 'sequence':
+        rec = Recorder()
+        sequences.run_case(PROPERTY, case, rec)
+        return rec.result()
+    return _run_case_first_call(case)
